@@ -2,7 +2,8 @@
 the serialisers and the process are exercised by running the real binary)."""
 import base64, json, os, random, re, socket, struct, subprocess, threading, time
 import vlib, netcases
-from props import netprops
+from props import netprops, cliplan
+from props.c15 import tok as val_tokens
 
 LEVEL = "other"
 RULE = ("the real gamedig_cli binary (rebuilt from /repo on every run) against in-process loopback UDP servers replaying SPEC-generated "
@@ -311,8 +312,176 @@ def inject_rule_keys(case, valid, rnd):
     return c
 
 
+
+def untok(toks):
+    """tokens of the driver's `json-read` -> python value (numbers through json.loads of their text)"""
+    it = iter(toks)
+
+    def val():
+        t = next(it)
+        if t == "N":
+            return None
+        if t in ("T", "F"):
+            return t == "T"
+        if t.startswith("#"):
+            return json.loads(bytes.fromhex(t[1:]))
+        if t.startswith("S"):
+            return bytes.fromhex(t[1:]).decode("utf-8")
+        n = int(t[1:])
+        if t.startswith("A"):
+            return [val() for _ in range(n)]
+        out = {}
+        for _ in range(n):
+            k = next(it)
+            out["" if k == "-" else bytes.fromhex(k).decode("utf-8")] = val()
+        return out
+    v = val()
+    if next(it, None) is not None:
+        raise ValueError("trailing tokens")
+    return v
+
+
+def value_tokens(v):
+    """python value -> tokens, numbers as serde_json prints them (ints in decimal, floats by their shortest text)"""
+    if v is None:
+        return ["N"]
+    if v is True or v is False:
+        return ["T" if v else "F"]
+    if isinstance(v, (int, float)):
+        return ["#" + repr(v).encode().hex()]
+    if isinstance(v, str):
+        return ["S" + v.encode().hex()]
+    if isinstance(v, list):
+        out = [f"A{len(v)}"]
+        for x in v:
+            out += value_tokens(x)
+        return out
+    out = [f"O{len(v)}"]
+    for k, x in v.items():
+        out += [k.encode().hex() or "-"] + value_tokens(x)
+    return out
+
+
+def hook_tree(rnd, depth=0):
+    """a value every output format can hold (BSON: integers within i64)"""
+    k = rnd.randrange(9 if depth < 4 else 5)
+    if k == 0:
+        return None
+    if k == 1:
+        return rnd.choice([True, False])
+    if k == 2:
+        return rnd.choice([0, -1, 1, 255, 2 ** 31 - 1, 2 ** 31, -2 ** 31 - 1, 2 ** 53, 2 ** 63 - 1, -2 ** 63, 0.5, -2.25, 1234.5, 1.5e300])
+    if k in (3, 4):
+        return cliplan.rand_text(rnd)
+    if k in (5, 6):
+        return [hook_tree(rnd, depth + 1) for _ in range(rnd.choice([0, 1, 2, 3]))]
+    return {cliplan.rand_text(rnd, 5): hook_tree(rnd, depth + 1) for _ in range(rnd.choice([0, 1, 2, 3]))}
+
+
+def run_hook_print(fmt, text):
+    p = subprocess.run([cliplan.HOOK_CLI, "query", "-g", "x", "-i", "x", "-f", fmt], input=text, stdout=subprocess.PIPE, stderr=subprocess.PIPE,
+                       timeout=60, env=dict(os.environ, GAMEDIG_VERIF_PRINT="1"))
+    return p.returncode, p.stdout, p.stderr
+
+
+def hook_documents(rep, tier, seed):
+    """the WRITERS of the real binary (`output_result_*`, reached through the verification hook) on values of every shape — strings
+    over the whole of Unicode, control characters, quotes, keys of every kind, documents of every length modulo 3 — against the
+    model: JSON / pretty JSON / XML byte for byte, BSON-hex / BSON-base64 decoded by the model's decoders (and by Python's)"""
+    ok, log = cliplan.build_hook_cli()
+    if not ok:
+        rep.tie_failures.append("the CLI does not build with the verification hook: " + log[-800:])
+        return
+    rnd = random.Random(seed + 1900)
+    values = [{}, {"a": 1}, {"": ""}] + [{"k": "x" * n} for n in range(0, 7)] + [{"s": "".join(cliplan.TEXT_ALPHABET)}]
+    values += [{cliplan.rand_text(rnd, 5): hook_tree(rnd, 1) for _ in range(rnd.choice([1, 2, 3, 4]))} for _ in range(40 if tier == "quick" else 1500)]
+    values += [hook_tree(rnd) for _ in range(20 if tier == "quick" else 400)]
+    cases, meta = [], {}
+    for n, v in enumerate(values):
+        # NUL cannot be written into a BSON key (cstring); the binary reports that as an error, which is right
+        text = json.dumps(v, ensure_ascii=False).encode("utf-8")
+        toks = value_tokens(v)
+        is_doc = isinstance(v, dict)
+        for fmt in FORMATS[1:]:
+            if fmt.startswith("bson") and not is_doc:
+                continue  # `panic!("… BSON_DOCUMENT_UNAVAILABLE")` by design; a response is always a struct or a map
+            rc, out, err = run_hook_print(fmt, text)
+            key = f"hook:{n}:{fmt}"
+            rep.seen(key, out[:200].decode("utf-8", "replace"))
+            rep.count("hook-format:" + fmt)
+            desc = f"{key} GAMEDIG_VERIF_PRINT=1 gamedig_cli query -g x -i x -f {fmt} <<< {text[:600]!r}"
+            if b"panicked at" in err or rc == 101:
+                rep.oracle_failures.append(("cli-writer-panic:" + fmt, f"panic: {err[-300:]!r}", desc, ""))
+                continue
+            if rc != 0:
+                if fmt.startswith("bson") and b"Bson" in err and has_nul_key(v):
+                    continue
+                rep.oracle_failures.append((f"cli-writer-error:{fmt}", f"exit {rc}, stderr {err[-200:]!r}", desc, ""))
+                continue
+            doc = out[:-1] if out.endswith(b"\n") else out
+            cid = f"w{len(cases)}"
+            if fmt == "json":
+                cases.append(" ".join([cid, "json-print", "c"] + toks)); meta[cid] = ("eq", doc, desc)
+            elif fmt == "json-pretty":
+                cases.append(" ".join([cid, "json-print", "p"] + toks)); meta[cid] = ("eq", doc, desc)
+            elif fmt == "xml":
+                cases.append(" ".join([cid, "xml-of"] + toks)); meta[cid] = ("eq", doc, desc)
+            else:
+                entry, raw = ("hex-dec", None) if fmt == "bson-hex" else ("b64-dec", None)
+                try:
+                    raw = bytes.fromhex(doc.decode()) if fmt == "bson-hex" else base64.b64decode(doc, validate=True)
+                except ValueError as e:
+                    rep.oracle_failures.append((f"cli-malformed:{fmt}", f"{e}; stdout {doc[:120]!r}", desc, ""))
+                    continue
+                cases.append(f"{cid} {entry} {doc.hex() or '-'}"); meta[cid] = ("dec", raw, desc)
+                # and back: the model's encoder on the decoded bytes gives the printed text
+                cid2 = f"w{len(cases)}"
+                cases.append(f"{cid2} {'hex-enc' if fmt == 'bson-hex' else 'b64-enc'} {raw.hex() or '-'}"); meta[cid2] = ("text", doc, desc)
+                try:
+                    if not same_values(bson_decode(raw), v):
+                        rep.oracle_failures.append((f"cli-bson-unfaithful:hook", "BSON differs from the value", desc, ""))
+                except Exception as e:
+                    rep.oracle_failures.append((f"cli-malformed:{fmt}", f"{type(e).__name__}: {e}", desc, ""))
+    model = vlib.run_model(cases)
+    for c in cases:
+        cid = c.split(" ", 1)[0]
+        kind, want, desc = meta[cid]
+        got = model.get(cid, "<no output>")
+        rep.count("hook-compared")
+        if kind == "eq":
+            good = got == (want.hex() or "-")
+        elif kind == "dec":
+            good = got == "OK " + (want.hex() or "-")
+        else:
+            good = got == (want.decode("latin-1") or "-")
+        if not good:
+            rep.divergences.append((c[:2000], got[:600], (want.hex() if kind != "text" else want.decode("latin-1"))[:600], "writer of the real binary differs from the model; " + desc[:400]))
+
+
+def has_nul_key(v):
+    if isinstance(v, dict):
+        return any("\0" in k or has_nul_key(x) for k, x in v.items())
+    if isinstance(v, list):
+        return any(has_nul_key(x) for x in v)
+    return False
+
+
 def run(rep, tier, seed, replay=None):
+    if replay is not None:
+        # case lines of the plan / codec stages are re-run as they are; anything else (a description of a document case) means
+        # the whole run
+        cliplan.run(rep, [l for l in replay if cliplan.is_plan(l)])
+        cliplan.run_codec(rep, [l for l in replay if cliplan.is_codec(l)], tag="c19codec")
+        if all(cliplan.is_plan(l) or cliplan.is_codec(l) for l in replay):
+            return
     rnd = random.Random(seed)
+    # the plan of an invocation: real binary (plan hook) against the model of main, and the exit rules on every invalid invocation
+    cliplan.run(rep, [l for l in netprops.corpus("C19") if cliplan.is_plan(l)])
+    cliplan.run(rep, cliplan.gen(seed + 19, tier))
+    # the mirrors the model's documents are made of, against the crates / std themselves
+    cliplan.run_codec(rep, [l for l in netprops.corpus("C19") if cliplan.is_codec(l)] + cliplan.codec_cases(seed + 19, tier), tag="c19codec")
+    # the writers of the real binary on values of every shape
+    hook_documents(rep, tier, seed)
     ok, log = build_cli()
     if not ok:
         rep.tie_failures.append("the CLI does not build: " + log[-800:])
@@ -373,6 +542,13 @@ def run(rep, tier, seed, replay=None):
     lib_lines = [f"{cid}{gid} valve {c.args[0]} {c.args[1]} {c.args[2]} 0 {c.fmt_script()}" for gid, cid, c in jobs]
     lib_out, _ = vlib.run_impl(lib_lines, tag="c19")
     xml_cases, xml_meta = [], {}
+    dec_cases, dec_meta = [], {}
+
+    def decode_with_model(kind, entry_args, want, desc):
+        did = f"d{len(dec_cases)}"
+        dec_cases.append(" ".join([did] + entry_args))
+        dec_meta[did] = (kind, want, desc)
+
     for (gid, cid, c), line in zip(jobs, lib_lines):
         lib_line = lib_out.get(line.split(" ", 1)[0], "")
         dump = vlib.view_of(lib_line)
@@ -417,8 +593,20 @@ def run(rep, tier, seed, replay=None):
                         json_docs[mode] = out
                         if not same_values(doc, expected[mode]):
                             rep.oracle_failures.append((f"cli-json-unfaithful:{mode}", f"JSON differs from the library's response: {out[:200]!r}", case_desc, ""))
+                        # the same through the MODEL's reader (the decoder of the C19_cli theorems): what it reads holds the library's
+                        # values, and the model's printer gives the document back byte for byte
+                        text = out[:-1] if out.endswith(b"\n") else out
+                        decode_with_model("json-values", ["json-read", text.hex() or "-"], (expected[mode], text, "c" if fmt == "json" else "p"), case_desc)
+                        if mode == "generic":
+                            # generic mode prints exactly the common view: the generated accessor tables (C15) evaluated by the model on
+                            # the protocol-specific value, through the model's printer
+                            decode_with_model("eq", ["cli-doc", "g", fmt, dump["file"], dump["type"], dump["pfile"] or "-", dump["ptype"] or "-", "-"] + val_tokens(dump["self"]),
+                                              text, case_desc)
                     elif fmt in ("bson-hex", "bson-base64"):
                         raw = bytes.fromhex(out.strip().decode()) if fmt == "bson-hex" else base64.b64decode(out.strip(), validate=True)
+                        text = out.strip()
+                        decode_with_model("dec", ["hex-dec" if fmt == "bson-hex" else "b64-dec", text.hex() or "-"], raw, case_desc)
+                        decode_with_model("text", ["hex-enc" if fmt == "bson-hex" else "b64-enc", raw.hex() or "-"], text, case_desc)
                         doc = bson_decode(raw)
                         if not same_values(doc, expected[mode]):
                             rep.oracle_failures.append((f"cli-bson-unfaithful:{mode}", f"BSON differs from the library's response", case_desc, ""))
@@ -443,6 +631,34 @@ def run(rep, tier, seed, replay=None):
                                 rep.oracle_failures.append(("cli-xml-not-wellformed", f"reader: {e}; {out[:160]!r}", case_desc, ""))
                 except Exception as e:  # a document that cannot even be read back
                     rep.oracle_failures.append((f"cli-malformed:{fmt}", f"{type(e).__name__}: {e}; stdout {out[:120]!r}", case_desc, ""))
+    dmodel = vlib.run_model(dec_cases)
+    reprint = []
+    for dc in dec_cases:
+        did = dc.split(" ", 1)[0]
+        kind, want, desc = dec_meta[did]
+        got = dmodel.get(did, "<no output>")
+        rep.count("model-decoded:" + dc.split(" ")[1])
+        if kind == "json-values":
+            expected_value, text, style = want
+            try:
+                value = untok(got.split(" "))
+            except (ValueError, StopIteration, UnicodeDecodeError):
+                rep.divergences.append((dc[:2000], got[:300], text[:300].decode("utf-8", "replace"), "the model's JSON reader does not read the document the CLI printed; " + desc[:300]))
+                continue
+            if not same_values(value, expected_value):
+                rep.oracle_failures.append(("cli-json-unfaithful:model-reader", "the values the model's reader finds in the document differ from the library's response", desc, ""))
+            rid = f"r{len(reprint)}"
+            reprint.append((f"{rid} json-print {style} {got}", text, desc))
+        else:
+            good = got == ((want.hex() or "-") if kind == "eq" else ("OK " + (want.hex() or "-")) if kind == "dec" else (want.decode("latin-1") or "-"))
+            if not good:
+                rep.divergences.append((dc[:2000], got[:600], (want.decode("latin-1") if kind == "text" else want.hex())[:600], "document of the real binary differs from the model's; " + desc[:300]))
+    rmodel = vlib.run_model([r[0] for r in reprint])
+    for line, text, desc in reprint:
+        got = rmodel.get(line.split(" ", 1)[0], "<no output>")
+        rep.count("model-reprinted")
+        if got != (text.hex() or "-"):
+            rep.divergences.append((line[:2000], got[:600], text.hex()[:600], "the model's JSON printer does not reproduce the CLI's document from its value; " + desc[:300]))
     model = vlib.run_model(xml_cases)
     for xc in xml_cases:
         xid = xc.split(" ", 1)[0]
